@@ -31,6 +31,7 @@ const c07Limit = 100
 
 // logical step bound: a run may report at most limit+2 layoutIter events
 const c07StepBound = c07Limit + 2
+const c07DoubleStop = 16
 
 var c07Keys = []string{"ka", "kb", "title", "Plain", "count"}
 
@@ -70,7 +71,7 @@ func (p *c07) ID() string { return "C07" }
 func (p *c07) Rule() string {
 	return "graph part (exhaustive, each graph twice: map Fill / struct Fill with a document-style base): page in {p.vuego, sub/p.vuego} x layout of the page in {absent,a,b,base,itself,a.vuego,missing} x layout of layouts/a, layouts/b in {absent,a,b,base,a.vuego,missing} x layouts/base.vuego {absent, present with each option} x sub/a.vuego {absent, present with each option}, pruned to graphs whose unreachable files carry no option (others are skipped duplicates); " +
 		"chain part: straight chains of n layouts, every n in 1..102 plus 150 (thorough: plus 200) for layouts/ placement and a subset (thorough: all) for relative placement with decoys in layouts/, default-base start, and explicit .vuego names; " +
-		"cycle part: cycles of length 1-4 entered after 0-3 links x {layouts/, relative, started by the default base, closing through the page, explicit .vuego names}; " +
+		"cycle part: cycles of length 1-4 entered after 0-3 links x {layouts/, relative, started by the default base, closing through the page, explicit .vuego names, layouts that show `content` twice (the render is stopped and reported when the layout loop passes 16 rounds: left to the depth limit such a cycle would produce 2^100 copies, i.e. not end)}; " +
 		"keys part: for keys ka and title every subset of defining sources {Fill, page front-matter, first layout, second layout} (16x16) x Fill kind {none,map,struct,*struct} x {named chain p->a->b, default chain p->base->a}, other keys and `content` random; " +
 		"appear part: one engine kept over a filesystem in which layouts/base.vuego, a layout next to the page and the second link of a chain appear and disappear between renders (5 histories x Load.Render / RenderFile), compared with a fresh engine on the same files after every change; " +
 		"samename part: 4 hand-built chains in which one bare layout name resolves to different files from different directories within a single chain (layouts/ fallback first and a file next to the naming layout later, the reverse, and two names crossed); " +
@@ -243,7 +244,7 @@ type c07CycleSpec struct {
 
 func c07CycleSpecs() []c07CycleSpec {
 	var out []c07CycleSpec
-	for _, v := range []string{"layouts", "relative", "default", "ext", "through-page"} {
+	for _, v := range []string{"layouts", "relative", "default", "ext", "through-page", "double"} {
 		for tail := 0; tail <= 3; tail++ {
 			for m := 1; m <= 4; m++ {
 				if v == "through-page" && tail > 0 {
@@ -307,7 +308,13 @@ func c07CycleCase(s c07CycleSpec) c07Case {
 		if k+1 < len(names) {
 			next = names[k+1]
 		}
-		c.Files = append(c.Files, c07File{Path: dir + names[k] + ".vuego", Layout: next + suffix})
+		f := c07File{Path: dir + names[k] + ".vuego", Layout: next + suffix}
+		if s.variant == "double" {
+			// every layout of the walk shows the previous result twice: each further round doubles the document, so a
+			// cycle that is only stopped by the depth limit does not end in practice (2^100 copies)
+			f.Style = "twice"
+		}
+		c.Files = append(c.Files, f)
 	}
 	return c
 }
@@ -653,6 +660,9 @@ func c07Source(f c07File) string {
 	for _, k := range c07Keys {
 		fmt.Fprintf(&b, `  <i data-k="%s">{{ %s }}</i>`+"\n", k, k)
 	}
+	if f.Style == "twice" {
+		fmt.Fprintf(&b, `  <div data-m="S2:%s" v-html="content"></div>`+"\n", f.Path)
+	}
 	fmt.Fprintf(&b, `  <div data-m="S:%s" v-html="content"></div>`+"\n</div>\n", f.Path)
 	if f.Style == "doc" {
 		b.WriteString("</body></html>\n")
@@ -896,10 +906,15 @@ type c07abort struct{}
 
 // c07Run renders the page with the real engine, counting layout loop iterations.
 func c07Run(c c07Case, fsys fs.FS, entry string) (out string, err error, iters int, aborted bool) {
+	stop := 2*c07Limit + 10
+	if c.Part == "cycle" && c.Shape == "double" {
+		// at most 7 layout files: a second visit happens within 8 rounds; at round 16 the document is 2^16 times a layout
+		stop = c07DoubleStop
+	}
 	removeHook := pushHook(func(point, a, b int) {
 		if point == vuego.VerifLayoutIter {
 			iters++
-			if iters > 2*c07Limit+10 {
+			if iters > stop {
 				panic(c07abort{})
 			}
 		}
